@@ -719,8 +719,10 @@ def tie_C12(ctx):
     cases = []
     for i in range(ctx.scale(250, 4000)):
         style = None
-        rs = jitter_readings(rng, rng.choice([60, 200, 500]), style)
+        rs = jitter_readings(rng, rng.choice([120, 400, 1200]), style)
         c = [f"timer 0 {rd_hex(rs)}", "jit 1 0"]
+        if rng.random() < 0.8:
+            c.append(f"rounds 1 {rng.choice([1, 1, 2, 3, 4])}")
         for _ in range(rng.randrange(2, 9)):
             r = rng.random()
             if r < 0.2:
@@ -890,4 +892,428 @@ PROPS.update({
     "C11": dict(tie=tie_C11),
     "C12": dict(tie=tie_C12),
     "C13": dict(tie=tie_C13),
+})
+
+# ------------------------------------------------------------------ C14: no panics
+def hostile_readings(rng, n):
+    specials = [0, 1, 0x7fffffff, 0x80000000, 0x80000001, 0xffffffff, 0x100000000, 0x100000001,
+                (1 << 63) - 1, 1 << 63, MASK64, MASK64 - 0x7fffffff, 0xfffffffe00000000]
+    out, t = [], rng.choice(specials)
+    for _ in range(n):
+        r = rng.random()
+        if r < 0.5:
+            t = (t + rng.choice([0x7fffffff, -0x7fffffff, 0x80000000, -0x80000000, 0xffffffff, 1, -1, 0x100000000, 3, 1 << 62])) & MASK64
+        elif r < 0.8:
+            t = rng.choice(specials)
+        else:
+            t = rng.getrandbits(64)
+        out.append(t)
+    return out
+
+def tie_C14(ctx):
+    rng = ctx.rng
+    cases = []
+    # JitterRng with extreme deltas: generation, test_timer, timer_stats
+    for i in range(ctx.scale(150, 2500)):
+        if i % 3 == 0:
+            # the shape of the repaired defect: successive deltas +(2^31-1) then -(2^31-1)
+            t0 = rng.getrandbits(40)
+            rs, t = [t0], t0
+            for k in range(200):
+                d = [0x7fffffff, -0x7fffffff, 0x80000000, 5][k % 4] if i % 6 == 0 else rng.choice([0x7fffffff, -0x7fffffff, -0x80000000, 0x7ffffffe, 2])
+                t = (t + d) & MASK64
+                rs += [rng.getrandbits(64), t, rng.getrandbits(64)]
+        else:
+            rs = hostile_readings(rng, rng.choice([100, 400]))
+        c = [f"timer 0 {rd_hex(rs)}", "jit 1 0", f"rounds 1 {rng.choice([1, 2, 3, 7])}"]
+        for _ in range(rng.randrange(1, 6)):
+            c.append(rng.choice(["u32 1", "u64 1", "fill 1 5", "fill 1 0", "fill 1 3", "stats 1 1", "stats 1 0", "fill 1 17"]))
+        cases.append(c)
+        ctx.dist["jitter-hostile-gen"] += 1
+    for i in range(ctx.scale(60, 1000)):
+        if i % 2 == 0:
+            ds = [rng.choice([0x7fffffff, -0x7fffffff, 0x7ffffffe, -0x80000000 + 1, 1, -1, 0x80000000 - 2]) for _ in range(400)]
+            rs = probe_script(rng, ds)
+        else:
+            rs = hostile_readings(rng, 1601)
+        cases.append([f"timer 0 {rd_hex(rs)}", "jit 1 0", "testtimer 1", "u32 1"])
+        ctx.dist["jitter-hostile-test_timer"] += 1
+    cases.append(["timer 0 1,2,3", "jit 1 0", "rounds 1 0"])
+    # every deterministic generator: extreme seeds, zero / odd / large fills at every buffer index
+    for g in GENS:
+        info = GENS[g]
+        for cls, seed in seed_classes(rng, info["seed"], ctx.scale(4, 60), all_bits=False, nzero_walk=2) + [("zero", bytes(info["seed"]))]:
+            ops = []
+            if "blk" in info:
+                ops += ["u32"] * rng.choice([0, 1, info["blk"] - 1, info["blk"], info["blk"] + 1])
+            ops += rand_ops(rng, rng.randrange(2, 9), maxfill=5000, small_bias=0.5)
+            if info["jump"]:
+                ops += ["jump", "ljump"]
+            c = [f"new 0 {g} seed {seed.hex()}"] + op_lines(0, ops) + ["dbg 0", "clone 1 0", "eq 0 1"]
+            if info["ser"]:
+                c += ["ser 0", "rt 2 0"]
+            cases.append(c)
+            ctx.dist[f"det:{cls}"] += 1
+        for x in [0, MASK64, (-PHI) & MASK64, rng.getrandbits(64)]:
+            cases.append([f"new 0 {g} u64 {x:016x}", f"{native(g)} 0", "fill 0 0", "fill 0 1"])
+        for body in [bytes(2100), b"\xff" * 2100, rand_bytes(rng, 2100)]:
+            for how in ("rng", "try"):
+                cases.append([f"src 1 {body.hex()}", f"new 0 {g} {how} 1", f"{native(g)} 0"])
+    # HC-128 far into the stream (counter arithmetic), ISAAC across many refills
+    cases.append(["new 0 Hc128Rng seed " + "07" * 32] + ["fill 0 65536"] * 3 + ["u32 0", "u64 0"])
+    cases.append(["new 0 IsaacRng seed " + "09" * 32] + ["fill 0 65535"] * 2 + ["u32 0", "u64 0"])
+    cases.append(["new 0 Isaac64Rng seed " + "0b" * 32] + ["fill 0 65535"] * 2 + ["u32 0", "u64 0", "u32 0"])
+    h, _ = ctx.absolute("every operation under catch_unwind in an overflow-checked build; model predicts no panic", cases,
+                        stop_at_blocked=True, mask=lambda c: c.startswith("dbg "))
+    for c, o in zip(cases, h):
+        for cmd, v in zip(c, o):
+            if v == "panic" and not (cmd.startswith("rounds ") and cmd.endswith(" 0")):
+                ctx.fail("panic", f"`{cmd[:60]}` panicked (overflow check, index out of bounds or assertion)", c,
+                         expected="no panic", actual="panic")
+                break
+            if v == "blocked":
+                break
+
+# ------------------------------------------------------------------ C15: pool mixing bijective
+def tie_C15(ctx):
+    rng = ctx.rng
+    def lf(d, t):
+        return [f"timer 0 {t:x},{t:x}", "jit 1 0", f"setpool 1 {d:016x}", "stats 1 0", "pool 1"]
+    def st(d):
+        return ["timer 0 1", "jit 1 0", f"setpool 1 {d:016x}", "stir 1", "pool 1"]
+    cases, tags = [], []
+    for j in range(64):
+        cases.append(lf(1 << j, 0)); tags.append(("D", j))
+    for j in range(64):
+        cases.append(lf(0, 1 << j)); tags.append(("T", j))
+    cases.append(lf(0, 0)); tags.append(("L0", 0))
+    for j in range(64):
+        cases.append(st(1 << j)); tags.append(("S", j))
+    cases.append(st(0)); tags.append(("S0", 0))
+    rnd = []
+    for _ in range(ctx.scale(150, 3000)):
+        d1, t1, d2, t2 = (rng.getrandbits(64) for _ in range(4))
+        rnd.append((d1, t1, d2, t2))
+        cases += [lf(d1, t1), lf(d2, t2), lf(d1 ^ d2, t1 ^ t2), st(d1), st(d2), st(d1 ^ d2)]
+        tags += [("r", 0)] * 6
+    h, _ = ctx.absolute("lfsr(pool, time) and stir(pool) through the cfg(rngs_verif) hooks: basis vectors and random pairs vs model", cases)
+    if any(o[2] == "unsupported" for o in h):
+        ctx.notes.append("hooks missing in /repo: C15 tie cannot observe the pool")
+        ctx.disagreements.append(dict(family="hooks", case=cases[0], line=2, cmd="setpool", impl="unsupported", model="ok"))
+        return
+    val = lambda o: int(o[4], 16)
+    D = [val(o) for t, o in zip(tags, h) if t[0] == "D"]
+    T = [val(o) for t, o in zip(tags, h) if t[0] == "T"]
+    S = [val(o) for t, o in zip(tags, h) if t[0] == "S"]
+    L0 = [val(o) for t, o in zip(tags, h) if t[0] == "L0"][0]
+    S0 = [val(o) for t, o in zip(tags, h) if t[0] == "S0"][0]
+    ctx.c15 = dict(D=D, T=T, S=S, L0=L0, S0=S0)
+    base = 64 + 64 + 1 + 64 + 1
+    lin_ok = True
+    for k, (d1, t1, d2, t2) in enumerate(rnd):
+        o = h[base + 6 * k: base + 6 * k + 6]
+        if val(o[0]) ^ val(o[1]) ^ val(o[2]) != L0:
+            lin_ok = False
+            ctx.notes.append("real lfsr is not jointly GF(2)-affine")
+        if val(o[3]) ^ val(o[4]) ^ val(o[5]) != S0:
+            lin_ok = False
+            ctx.notes.append("real stir is not GF(2)-affine")
+    # bijectivity of the real maps from their basis images (valid when they are affine)
+    for name, cols, zero, mk in (("lfsr in the pool (time fixed)", D, L0, lambda v: lf(v, 0)),
+                                 ("lfsr in the time value (pool fixed)", T, L0, lambda v: lf(0, v)),
+                                 ("stir", S, S0, st)):
+        lin = [c ^ zero for c in cols]
+        rank, ker = gf2.rank_and_kernel(lin, 64)
+        ctx.dist[f"rank({name})={rank}"] += 1
+        if ker is not None and lin_ok:
+            a = rng.getrandbits(64)
+            c = mk(a) + mk(a ^ ker)
+            o = ctx.real("collision from a kernel vector of the real map", [c])[0]
+            if o[4] == o[9]:
+                ctx.fail("collision", f"{name} is not one-to-one: two different inputs give the same pool value", c,
+                         expected="different pool values", actual=o[4])
+
+def falsify_C15(ctx):
+    """birthday / low-weight search for a collision when the real map is not affine"""
+    rng = ctx.rng
+    for name, mk in (("stir", lambda d: ["timer 0 1", "jit 1 0", f"setpool 1 {d:016x}", "stir 1", "pool 1"]),
+                     ("lfsr(pool)", lambda d: ["timer 0 5,5", "jit 1 0", f"setpool 1 {d:016x}", "stats 1 0", "pool 1"]),
+                     ("lfsr(time)", lambda t: [f"timer 0 {t:x},{t:x}", "jit 1 0", "setpool 1 0000000000000000", "stats 1 0", "pool 1"])):
+        seen = {}
+        base = rng.getrandbits(64)
+        ins = [base] + [base ^ (1 << i) for i in range(64)] + [base ^ (1 << i) ^ (1 << j) for i in range(64) for j in range(i)]
+        ins += [rng.getrandbits(64) for _ in range(20000)]
+        outs = ctx.real(f"collision search for {name}", [mk(v) for v in ins])
+        for v, o in zip(ins, outs):
+            if o[4] in seen and seen[o[4]] != v:
+                c = mk(seen[o[4]]) + mk(v)
+                ctx.fail("collision", f"{name} is not one-to-one", c, expected="different pool values", actual=o[4])
+                return
+            seen[o[4]] = v
+
+# ------------------------------------------------------------------ C16: every collected value handed out once
+def good_readings(rng, n):
+    """non-stuck timer: strictly increasing with erratic steps"""
+    t, out = rng.getrandbits(40), []
+    for _ in range(n):
+        t += rng.randrange(1, 100000)
+        out.append(t)
+    return out
+
+def tie_C16(ctx):
+    rng = ctx.rng
+    cases, meta = [], []
+    for i in range(ctx.scale(120, 2000)):
+        r = rng.choice([1, 1, 2, 3, 5, 9, 255]) if i % 10 else 255
+        rs = good_readings(rng, 40 + 3 * (r + 3) * 8)
+        hx = rd_hex(rs)
+        head = [f"timer 0 {hx}", "jit 1 0", f"rounds 1 {r}", f"timer 2 {hx}", "jit 3 2", f"rounds 3 {r}"]
+        shape = i % 5
+        if shape == 0:
+            body = ["u32 1", "calls 0", "u32 1", "calls 0", "u64 3", "calls 2", "u32 1", "calls 0", "u64 3", "u64 3"]
+        elif shape == 1:
+            x = rng.choice(["u64 1", "fill 1 5", "fill 1 8", "fill 1 13", "fill 1 7", "fill 1 16"])
+            body = ["u32 1", "calls 0", x, "calls 0", "u64 3", "u64 3", "u64 3"]
+        elif shape == 2:
+            body = ["u32 1", "calls 0", "clone 4 1", "u32 4", "calls 0", "u32 1", "calls 0", "u64 3", "u64 3", "u32 4", "u32 1"]
+        elif shape == 3:
+            n = rng.choice([1, 2, 3, 4])
+            body = ["u32 1", "calls 0", f"fill 1 {n}", "calls 0", "u64 3", "u64 3", "u32 1", "calls 0"]
+        else:
+            body = ["u32 1", "calls 0", "fill 1 0", "calls 0", "u32 1", "calls 0", "u64 3", "u64 3"]
+        cases.append(head + body)
+        meta.append((shape, r))
+        ctx.dist[f"shape{shape}"] += 1
+    h, _ = ctx.absolute("JitterRng halves, fresh collections, clones: twins on identical timer scripts with call counts vs model", cases)
+    for (shape, r), c, o in zip(meta, cases, h):
+        b = o[6:]
+        fresh = 1 + 3 * (1 + r)
+        if "blocked" in o:
+            continue
+        if shape == 0:
+            lo, c1, hi, c2, w, ct = b[0], int(b[1]), b[2], int(b[3]), b[4], int(b[5])
+            if hi + lo != w:
+                ctx.fail("halves", "two consecutive next_u32 are not (low, high) of the value next_u64 would have returned", c,
+                         expected=w, actual=hi + lo)
+            if c2 != c1 or c1 != ct:
+                ctx.fail("halves", "the second next_u32 read the timer / the pair did not cost exactly one collection", c,
+                         expected=f"{ct} {ct}", actual=f"{c1} {c2}")
+            c3 = int(b[7])
+            if c3 - c2 < fresh or b[6] != b[8][8:]:
+                ctx.fail("halves", "a next_u32 with no half pending did not start a fresh collection", c)
+        elif shape == 1:
+            c1, c2 = int(b[1]), int(b[3])
+            w2 = b[5]
+            got = b[2]
+            le = bytes.fromhex(w2)[::-1].hex()
+            okv = (got == w2) if c[8].startswith("u64") else le.startswith(got[:min(len(got), 16)])
+            if c2 - c1 < fresh or not okv:
+                ctx.fail("discard", f"`{c[8]}` after a next_u32 did not discard the pending half and start a fresh collection "
+                         f"({c2 - c1} timer readings, need >= {fresh})", c, expected=w2, actual=got)
+        elif shape == 2:
+            c1, c2, c3 = int(b[1]), int(b[4]), int(b[6])
+            w1, w2 = b[7], b[8]
+            if c2 - c1 < fresh or b[3] != w2[8:]:
+                ctx.fail("clone", "a clone's first output does not come from a fresh collection (it reused the original's pending half)", c,
+                         expected=w2[8:], actual=b[3])
+            if c3 != c2 or b[5] != w1[:8]:
+                ctx.fail("clone", "the original lost its pending high half after being cloned", c, expected=w1[:8], actual=b[5])
+        elif shape == 3:
+            c1, c2 = int(b[1]), int(b[3])
+            if c2 == c1:
+                # documented wording says fill_bytes discards a pending half; for 1..4 bytes it serves the pending half instead
+                ctx.fail("discard", "fill_bytes(n), 1<=n<=4, with a half pending returns bytes of the pending half without a fresh collection",
+                         c, expected="fresh collection", actual="pending half", key="C16-fill-1to4-uses-pending-half")
+                w1 = b[4]
+                n = int(c[8].split()[2])
+                hi_le = bytes.fromhex(w1[:8])[::-1].hex()
+                if b[2] != hi_le[:2 * n]:
+                    ctx.fail("twice", "bytes returned by fill_bytes are not the pending half", c, expected=hi_le[:2 * n], actual=b[2])
+                # the half must not be handed out a second time
+                if int(b[7]) - c2 < fresh:
+                    ctx.fail("twice", "the pending half was handed out twice (fill_bytes, then next_u32)", c)
+        else:
+            c1, c2, c3 = int(b[1]), int(b[3]), int(b[5])
+            if c2 != c1 or c3 != c2 or b[0] != b[6][8:] or b[4] != b[6][:8]:
+                ctx.fail("halves", "fill_bytes(0) disturbed the pending half", c)
+
+PROPS.update({
+    "C14": dict(tie=tie_C14),
+    "C15": dict(tie=tie_C15, falsifier=falsify_C15),
+    "C16": dict(tie=tie_C16),
+})
+
+# ------------------------------------------------------------------ C17: Debug hides state
+HIDING = ["XorShiftRng", "Hc128Rng", "IsaacRng", "Isaac64Rng"]
+
+def tie_C17(ctx):
+    rng = ctx.rng
+    cases, meta = [], []
+    for g in HIDING:
+        info = GENS[g]
+        for i in range(ctx.scale(40, 500)):
+            ops = rand_ops(rng, rng.randrange(0, 6), maxfill=1100 if "blk" in info else 30)
+            if "blk" in info:
+                ops = ["u32"] * rng.choice([0, 1, 5, info["blk"] - 1, info["blk"]]) + ops
+            s1, s2 = rand_bytes(rng, info["seed"]), rand_bytes(rng, info["seed"])
+            c = []
+            for slot, s in ((0, s1), (1, s2)):
+                c += [f"new {slot} {g} seed {s.hex()}"] + op_lines(slot, ops)
+            c += ["dbg 0", "dbgp 0", "dbg 1", "dbgp 1", "clone 2 0", f"fill 2 {4 * 40}", "clone 3 0"]
+            c += ["ser 3"] if info["ser"] else ["fill 3 0"]
+            cases.append(c); meta.append((g, len(c) - 8))
+            ctx.dist[f"{g}:two-seeds-same-history"] += 1
+    # JitterRng
+    for i in range(ctx.scale(20, 200)):
+        rs = good_readings(rng, 200)
+        c = [f"timer 0 {rd_hex(rs)}", "jit 1 0", "rounds 1 2"] + rng.choice([[], ["u32 1"], ["u64 1"], ["u32 1", "u32 1"]]) + \
+            ["dbg 1", "dbgp 1", "pool 1"]
+        cases.append(c); meta.append(("JitterRng", len(c) - 3))
+    h, _ = ctx.absolute("{:?} and {:#?} of the state-hiding generators vs the model's template (function of read position only)", cases)
+    import re
+    for (g, at), c, o in zip(meta, cases, h):
+        if g == "JitterRng":
+            texts = [o[at], o[at + 1]]
+            words = {int(o[at + 2], 16)} if o[at + 2] != "unsupported" else set()
+        else:
+            texts = o[at:at + 4]
+            if o[at] != o[at + 2] or o[at + 1] != o[at + 3]:
+                ctx.fail("debug", f"{g}: Debug output depends on the seed (two seeds, same history)", c, expected=o[at], actual=o[at + 2])
+            fut = bytes.fromhex(o[at + 5]) if o[at + 5] != "-" else b""
+            words = {int.from_bytes(fut[i:i + 4], "little") for i in range(0, len(fut), 4)}
+            words |= {int.from_bytes(fut[i:i + 8], "little") for i in range(0, len(fut) - 7, 8)}
+            if GENS[g]["ser"] and o[at + 7] not in ("unsupported", "-"):
+                img = bytes.fromhex(o[at + 7])
+                words |= {int.from_bytes(img[i:i + 4], "little") for i in range(0, min(len(img), 64), 4)}
+        nums = set()
+        for t in texts:
+            for tok in re.findall(r"0x[0-9a-fA-F]+|\b[0-9a-fA-F]{6,}\b|\b\d+\b", t):
+                try:
+                    nums.add(int(tok, 16) if tok.lower().startswith("0x") else int(tok))
+                except ValueError:
+                    pass
+                try:
+                    nums.add(int(tok, 16))
+                except ValueError:
+                    pass
+        leak = {w for w in words if w > 4096} & nums
+        if leak:
+            ctx.fail("debug", f"{g}: Debug output contains a state / buffered output word ({sorted(leak)[0]:#x})", c)
+
+# ------------------------------------------------------------------ C18: build configurations
+def corpus_C18(ctx, serde_free=True):
+    rng = random.Random(ctx.seed * 7919 + 18)
+    cases = []
+    for g in GENS:
+        info = GENS[g]
+        for i in range(ctx.scale(12, 120)):
+            seed = rand_bytes(rng, info["seed"]) if i else bytes(info["seed"])
+            ops = history(rng, g, rng.randrange(3, 10))
+            if "blk" in info:
+                ops = ["u32"] * rng.choice([0, 3, info["blk"] - 1]) + ops + ["fill 2500"]
+            cases.append([f"new 0 {g} seed {seed.hex()}"] + op_lines(0, ops) + ["clone 1 0", "eq 0 1" if g in REAL_EQ else "u32 1"])
+        for x in (0, 1, MASK64, rng.getrandbits(64)):
+            cases.append([f"new 0 {g} u64 {x:016x}", "u32 0", "u64 0", "fill 0 23"])
+    for i in range(ctx.scale(40, 400)):
+        rs = jitter_readings(rng, 400, rng.choice(["walk", "random", "huge", "backwards"]))
+        cases.append([f"timer 0 {rd_hex(rs)}", "jit 1 0", f"rounds 1 {rng.choice([1, 2, 3])}", "u32 1", "u32 1", "u64 1", "fill 1 11",
+                      "stats 1 1", "calls 0"])
+    for i in range(ctx.scale(6, 40)):
+        rs = probe_script(rng, [rng.randrange(1, rng.choice([5, 50, 1 << 20])) for _ in range(400)])
+        cases.append([f"timer 0 {rd_hex(rs)}", "jit 1 0", "testtimer 1"])
+    return cases
+
+def tie_C18(ctx):
+    cases = corpus_C18(ctx)
+    base, _ = ctx.absolute("corpus in the tie profile (opt 2, overflow checks + debug assertions on, serde on) vs model", cases,
+                           stop_at_blocked=True)
+    configs = [("release", False)] if not ctx.thorough else \
+        [("dev", True), ("dev", False), ("o0nochk", True), ("o0nochk", False), ("release", True), ("release", False),
+         ("o3chk", True), ("o3chk", False)]
+    digest = lambda outs: hashlib.sha256("\n".join("\n".join(o) for o in outs).encode()).hexdigest()
+    ctx.dist["digest:tie"] = 1
+    ref = digest(base)
+    ctx.notes.append(f"corpus digest in tie profile: {ref[:16]}")
+    for prof, serde in configs:
+        td = os.path.join(HARNESS, "target" if serde else "target-noserde")
+        ok, log, exe = harness_build(profile=prof, serde=serde, target_dir=td)
+        name = f"{prof}{'+serde' if serde else '-serde'}"
+        if not ok:
+            ctx.notes.append(f"build {name} failed: {log[-400:]}")
+            ctx.disagreements.append(dict(family="build " + name, case=["cargo build"], line=0, cmd="build", impl="failed", model="-"))
+            continue
+        outs = run_chunks(exe, cases)
+        ctx.evaluations += len(cases)
+        ctx.dist[f"config:{name}"] = len(cases)
+        d = digest(outs)
+        ctx.notes.append(f"corpus digest in {name}: {d[:16]}")
+        for c, a, b in zip(cases, base, outs):
+            if a != b:
+                k = first_diff(a, b)
+                if "blocked" in a[:k + 1]:
+                    continue
+                ctx.fail("config", f"output differs between build configurations: tie profile vs {name} at `{c[k][:50]}`", c,
+                         expected=a[k][:80], actual=b[k][:80])
+                break
+
+# ------------------------------------------------------------------ C19: no hidden shared state
+def tie_C19(ctx):
+    rng = ctx.rng
+    worlds = []
+    for w in range(ctx.scale(30, 400)):
+        n = rng.randrange(2, 7)
+        gens = []
+        shared_seed = rng.getrandbits(64)
+        for k in range(n):
+            g = rng.choice(list(GENS))
+            how = rng.choice(["seed", "seed", "u64", "zero", "sameu64"])
+            if how == "seed":
+                ctor = f"new {k} {g} seed {rand_bytes(rng, GENS[g]['seed']).hex()}"
+            elif how == "zero":
+                ctor = f"new {k} {g} seed {'00' * GENS[g]['seed']}"
+            elif how == "u64":
+                ctor = f"new {k} {g} u64 {rng.getrandbits(64):016x}"
+            else:
+                ctor = f"new {k} {g} u64 {shared_seed:016x}"
+            ops = history(rng, g, rng.randrange(3, 9))
+            gens.append([ctor] + op_lines(k, ops))
+        # one JitterRng with its own scripted timer in some worlds
+        if rng.random() < 0.4:
+            k = n
+            rs = good_readings(rng, 300)
+            gens.append([f"timer {k + 10} {rd_hex(rs)}", f"jit {k} {k + 10}", f"rounds {k} 2", f"u32 {k}", f"u64 {k}", f"fill {k} 9"])
+        worlds.append(gens)
+    solo_cases, inter_cases, maps = [], [], []
+    for gens in worlds:
+        for seq in gens:
+            solo_cases.append(seq)
+        # scripted interleaving over worker threads
+        idx = [0] * len(gens)
+        order = []
+        nthreads = rng.randrange(2, 9)
+        while any(i < len(s) for i, s in zip(idx, gens)):
+            k = rng.choice([j for j in range(len(gens)) if idx[j] < len(gens[j])])
+            t = rng.randrange(nthreads)
+            order.append((k, idx[k], f"@{t} {gens[k][idx[k]]}"))
+            idx[k] += 1
+        inter_cases.append([l for _, _, l in order])
+        maps.append(order)
+        ctx.dist[f"threads={nthreads}"] += 1
+        ctx.dist[f"instances={len(gens)}"] += 1
+    solo, _ = ctx.absolute("each generator alone vs model", solo_cases)
+    inter = ctx.real("the same histories interleaved on 2-8 OS threads (generators move between threads)", inter_cases)
+    si = 0
+    for gens, order, c, o in zip(worlds, maps, inter_cases, inter):
+        solos = solo[si:si + len(gens)]
+        si += len(gens)
+        for (k, i, line), v in zip(order, o):
+            if solos[k][i] != v:
+                ctx.fail("isolation", f"instance {k}: `{gens[k][i][:60]}` returned a different value when interleaved with other instances "
+                         f"on other threads than when run alone", c, expected=solos[k][i][:80], actual=v[:80])
+                break
+
+PROPS.update({
+    "C17": dict(tie=tie_C17),
+    "C18": dict(tie=tie_C18),
+    "C19": dict(tie=tie_C19),
 })
